@@ -3258,8 +3258,8 @@ func (m *Machine) SetSchema(newSchema Schema, names S) error {
 		m.schemaMx.Unlock()
 		return err
 	}
-	// TODO is this safe?
-	m.subs.SetClock(m.Clock(nil))
+	// hand over the live clock, never a copy
+	m.subs.SetClock(m.clock)
 	m.schemaMx.Unlock()
 
 	// notify the resolver and tracers
